@@ -104,14 +104,20 @@ def pva_at(m, t):
                                 m.rph(t) * geo.R2D]), index=COLS, name=float(t))
 
 
-def run_pipeline(m, dt, T, typ):
+def run_pipeline(m, dt, T, typ, chunk=0):
     from pyins import strapdown
     n = int(round(T / dt))
     t = np.arange(n + 1) * dt
     imu = make_imu(m, t, typ)
     inc = strapdown.compute_increments_from_imu(imu, typ)
     integ = strapdown.Integrator(pva_at(m, 0.0))
-    integ.integrate(inc)
+    if chunk:
+        # the way the filters drive the integrator: consecutive integrate calls (C02 decides
+        # that this is bit-identical to one call; here it only widens the driver)
+        for a in range(0, len(inc), chunk):
+            integ.integrate(inc.iloc[a:a + chunk])
+    else:
+        integ.integrate(inc)
     return t, integ.trajectory.values
 
 
@@ -172,7 +178,11 @@ def run_case(case):
     T = case['T']
     sols, E = {}, {}
     for dt in ladder:
-        t, sol = run_pipeline(m, dt, T, case['type'])
+        # every rung is integrated in consecutive chunks of about 1 s (the same duration on
+        # every rung, so that a history-dependent error would be common to all rungs and
+        # could not hide in the halving changes); cases with weave use a single call
+        chunk = 0 if case['weave'] else int(round(1.0 / dt)) + 3
+        t, sol = run_pipeline(m, dt, T, case['type'], chunk)
         if not np.isfinite(sol).all():
             return dict(viol=[dict(sig='c01-nonfinite', msg='non-finite trajectory at dt=%g' % dt)],
                         key=None, nontrivial=True, stats={})
